@@ -383,6 +383,14 @@ func (g *gen) negCase(envID int, path string) Case {
 }
 
 func (g *gen) genExprCase(t *rapid.T) Case {
+	c := g.genExprCase0(t)
+	if rapid.IntRange(0, 2).Draw(t, "scoped") == 0 {
+		c = g.addScope(t, c)
+	}
+	return c
+}
+
+func (g *gen) genExprCase0(t *rapid.T) Case {
 	envID := rapid.IntRange(0, fnEnv).Draw(t, "env")
 	env := envOf(envID)
 	g.fn = envID == fnEnv
@@ -825,6 +833,13 @@ func classify(c Case) (bool, []string) {
 	cls := []string{"fam=" + c.Fam, fmt.Sprintf("env=%d", c.Env)}
 	for _, p := range c.Pos {
 		cls = append(cls, "pos="+p)
+	}
+	if len(c.Scope) > 0 {
+		cls = append(cls, fmt.Sprintf("A:scope depth=%d", len(c.Scope)), "A:scope var-type="+scopeVars[c.Scope[0].Var])
+		inner := c.Scope[len(c.Scope)-1].List
+		if contains([]string{"Lsn", "Lin", "Lbn", "Lnil"}, inner) {
+			cls = append(cls, "A:scope inner-nil")
+		}
 	}
 	switch c.Fam {
 	case "neg":
